@@ -53,7 +53,7 @@ class HeapMixin:
     # ------------------------------------------------------------ attributes
     def getattr(self, v, attr, frame=None):
         if isinstance(v, VRef) and v.oid in self.run.old_alias:
-            return self.oldify(self.getattr_(v, attr, frame))
+            return self.oldify(self.getattr_(v, attr, frame), v.oid)
         return self.getattr_(v, attr, frame)
 
     def getattr_(self, v, attr, frame=None):
@@ -134,7 +134,8 @@ class HeapMixin:
                 return VBound(v, attr)
             return self.any_getattr(v, attr)
         if isinstance(v, VCallback):
-            return VCallback(f"{v.name}.{attr}", self.cb_spec(f"{v.name}.{attr}", v.spec.get(attr, {}) if isinstance(v.spec, dict) else {}))
+            dflt = (v.spec.get(attr) or (v.spec if v.spec.get("inherit") else {})) if isinstance(v.spec, dict) else {}
+            return VCallback(f"{v.name}.{attr}", self.cb_spec(f"{v.name}.{attr}", dflt))
         raise E.Unsupported(f"getattr {v!r}.{attr}")
 
     AST_LISTS = ("args", "keywords", "elts", "values", "ops", "comparators", "generators", "ifs", "keys")
@@ -148,6 +149,12 @@ class HeapMixin:
             if attr in self.AST_LISTS:
                 return self.fresh(("list", ("astnode",)), f"ast_{attr}({v.t})")
             return VAny(z3.Function(f"ast_{attr}", AnySort, AnySort)(v.t), "astnode")
+        if self.opt("opaque_any_methods"):
+            # arbitrary user data: an attribute read yields another opaque value or AttributeError
+            has = z3.Function(f"hasattr_{attr}", AnySort, z3.BoolSort())(v.t)
+            if not self.run.decide(has, f"hasattr({attr})"):
+                raise E.PyExc(VExc("AttributeError"), f"opaque.{attr}")
+            return VAny(z3.Function(f"getattr_{attr}", AnySort, AnySort)(v.t), "pyattr")
         raise E.Unsupported(f"attribute {attr} of opaque value")
 
     def setattr(self, v, attr, val):
@@ -297,6 +304,11 @@ class HeapMixin:
                 if ra.concrete and rb.concrete and a.kind == "set":
                     return z3.And([self.set_contains(a, x) for x in rb.items] + [self.set_contains(b, x) for x in ra.items]
                                   or [z3.BoolVal(True)])
+                if not ra.concrete and not rb.concrete and a.kind == "dict" and ra.val is not None and rb.val is not None \
+                        and not ra.over and not rb.over:
+                    k = z3.Const("k!deq", ra.dom.sort().domain())
+                    return z3.And(ra.size == rb.size, z3.ForAll([k], z3.And(z3.Select(ra.dom, k) == z3.Select(rb.dom, k),
+                                  z3.Implies(z3.Select(ra.dom, k), z3.Select(ra.val, k) == z3.Select(rb.val, k)))))
                 raise E.Unsupported("equality on symbolic dict/set")
             return z3.BoolVal(False)
         if isinstance(a, VTuple) and isinstance(b, VTuple):
@@ -373,7 +385,7 @@ class HeapMixin:
         if r.arr is not None:
             return self.wrap(r.elem, z3.Select(r.arr, pos))
         if r.elem[0] == "obj":
-            nm = f"{r.sym}[{pos}]"
+            nm = f"{r.sym}[{E.simp(pos + r.shift) if not isinstance(r.shift, int) or r.shift else pos}]"
             cls = r.elem[1]
 
             def mk():
@@ -559,7 +571,7 @@ class HeapMixin:
     # ------------------------------------------------------------ subscripts
     def subscript(self, v, idx):
         if isinstance(v, VRef) and v.oid in self.run.old_alias:
-            return self.oldify(self.subscript_(v, idx))
+            return self.oldify(self.subscript_(v, idx), v.oid)
         return self.subscript_(v, idx)
 
     def subscript_(self, v, idx):
@@ -590,6 +602,11 @@ class HeapMixin:
             return VStr(z3.SubString(v.t, pos, 1))
         if isinstance(v, VNone):
             raise E.PyExc(VExc("TypeError"), "None[...]")
+        if isinstance(v, VAny) and self.opt("opaque_any_methods"):
+            k = self.run.choose([("ok", None), ("KeyError", None), ("TypeError", None), ("IndexError", None)], "opaque[...]")
+            if k:
+                raise E.PyExc(VExc(["KeyError", "TypeError", "IndexError"][k - 1]), "opaque subscript")
+            return VAny(z3.Function("any_getitem", AnySort, AnySort, AnySort)(v.t, self.inject(idx)), "pyvalue")
         raise E.Unsupported(f"subscript {v!r}[{idx!r}]")
 
     def slice_of(self, v, lo, hi):
@@ -616,15 +633,23 @@ class HeapMixin:
                 j = z3.Int("j!")
                 nr.arr = z3.Lambda([j], z3.Select(r.arr, j + l))
             nr.farr = dict(r.farr)
-            if r.elem[0] == "obj" and not (z3.is_int_value(l) and l.as_long() == 0):
-                raise E.Unsupported("slice of symbolic object list with non-zero start")
             if r.elem[0] == "obj":
                 nr.sym = r.sym
+                nr.shift = E.simp(r.shift + l)
+                if r.cnt:
+                    for cn in r.cnt:
+                        c = z3.Int(self.run.fresh_name(f"{r.sym}#count:{cn}:slice"))
+                        self.run.assume(z3.And(c >= 0, c <= newlen, c <= r.cnt[cn]))
+                        nr.cnt[cn] = c
             return VRef(self.run.alloc(nr), "list")
         if isinstance(v, VTuple):
             lo_c = None if lo is None else self.concrete_int(lo)
             hi_c = None if hi is None else self.concrete_int(hi)
             return VTuple(v.items[lo_c:hi_c])
+        if isinstance(v, VAny) and self.opt("opaque_any_methods"):
+            if self.run.choose([("ok", None), ("TypeError", None)], "opaque[:]"):
+                raise E.PyExc(VExc("TypeError"), "opaque slice")
+            return VAny(z3.Function("any_slice", AnySort, AnySort)(v.t), "pyvalue")
         raise E.Unsupported(f"slice of {v!r}")
 
     def norm_index(self, i, n, default):
